@@ -7,5 +7,6 @@ RUNNERS = {
     "plan": ("Extract/ExtractPlan.v", "plan_driver.ml", ["plan_model"]),
     "solver": ("Extract/ExtractSolver.v", "solver_driver.ml", ["solver_model"]),
     "opt": ("Extract/ExtractOpt.v", "opt_driver.ml", ["opt_model"]),
+    "print": ("Extract/ExtractPrint.v", "print_driver.ml", ["print_model"]),
     "mro": ("Extract/ExtractMro.v", "mro_driver.ml", ["mro_model"]),
 }
